@@ -78,9 +78,9 @@ func vfE8NewLookupd(script []vfE8Poll) *vfE8Lookupd {
 	return l
 }
 
-var vfE8DiscTopics = []string{"a1", "a2", "ab", "b1", "bx", "x", "t.log", "bad topic", "a#ephemeral", "b#ephemeral",
+var vfE8DiscTopics = []string{"a1", "a2", "ab", "b1", "bx", "x", "t.log", "a1", "b1", "ab", "A1", "bad topic", "a#ephemeral", "b#ephemeral",
 	strings.Repeat("a", 64), strings.Repeat("a", 65), ""}
-var vfE8DiscPatterns = []string{"", "", "^a", "x$", "[", "^(a1|b1)$", ".", "^$", "a{2}", "(?i)A"}
+var vfE8DiscPatterns = []string{"", "", "", "^a", "^[ab]", "x$|1$", "[", "^(a1|b1)$", ".", "^$", "a{2}", "(?i)A", "^.[0-9]$"}
 
 func vfE8ChanClosed(c chan bool) bool {
 	select {
@@ -124,13 +124,13 @@ func TestVerifToFileDiscover(t *testing.T) {
 		opts.HTTPClientConnectTimeout = 2 * time.Second
 		opts.HTTPClientRequestTimeout = 20 * time.Second
 		opts.SyncInterval = time.Hour
-		noRev := r.Intn(8) == 0
+		noRev := r.Intn(12) == 0
 		if noRev { // every NewFileLogger fails: gzip needs <REV>
 			opts.GZIP = true
 			opts.FilenameFormat = "<TOPIC>.log"
 		}
 		pick := func() []string {
-			k := r.Intn(5)
+			k := 1 + r.Intn(5)
 			var l []string
 			for i := 0; i < k; i++ {
 				l = append(l, vfE8DiscTopics[r.Intn(len(vfE8DiscTopics))])
